@@ -348,6 +348,12 @@ class Body:
 
 class Facts:
     def __init__(self, j):
+        import os as _os
+        self.inlined = {}
+        if j.get("bodies") and not _os.environ.get("FB_NO_INLINE"):
+            import lib_inline
+            lib_inline.inline_facts(j)
+            self.inlined = j.get("inlined_helpers", {})
         self.j = j
         self.crate = j["crate"]
         self.types = j["types"]
@@ -370,9 +376,11 @@ class Facts:
             return Facts(json.load(fh))
 
     def fn_bodies(self):
-        """Bodies that are functions / closures (not consts, statics, promoteds)."""
+        """Bodies that are functions / closures (not consts, statics, promoteds); private helpers whose every call
+        site was inlined are analysed in place only (lib_inline)."""
+        skip = set(self.inlined.get("fully_inlined", []))
         return [b for b in self.body_list
-                if b.kind in ("Fn", "AssocFn", "Closure") and b.j["promoted"] is None]
+                if b.kind in ("Fn", "AssocFn", "Closure") and b.j["promoted"] is None and b.path not in skip]
 
     def body(self, path):
         return self.bodies.get(path)
